@@ -90,6 +90,12 @@ chk("C10", "exploration",
     "Trusted: the document models and renderer in harness/docs.go, dependency/arch models, simulated reader and file system. Real code (instrumented copy): control.Parse* and everything below.",
     "DESIGN.md §5 C10")
 
+chk("C19", "exploration",
+    "deterministic simulation (claimed weakly): seeded build-dependency graphs rendered as .dsc files onto the simulated file system in a tape-chosen arrival order, read back through ParseDscFile and ordered repeatedly by the instrumented OrderDSCForBuild under tape-chosen map orders; outcome checked against an independent graph model (cycle <=> error, otherwise forward edges and a permutation); tape minimisation and exact replay",
+    "OrderDSCForBuild is a pure function: simulation owns the arrival order, the file reads and Go's map-order nondeterminism, which is the only run-to-run variation the 'same on every run' clause can depend on. The topological validity clause is decided by generated inputs against a graph model; if that is judged outside the technique family this property belongs with C01-C06.",
+    "Trusted: the graph model in harness/c19.go, the .dsc renderer, simos. Real code (instrumented copy): control.OrderDSCForBuild, ParseDscFile, dependency.GetPossibilities; pault.ag/go/topsort unmodified.",
+    "DESIGN.md §5 C19")
+
 def main():
     props = [json.loads(l) for l in open(os.path.join(HERE, "properties.jsonl"))]
     ids = [p["id"] for p in props]
